@@ -85,7 +85,7 @@ def main():
         "ran": ran,
         "commands": [f"cd <worktree> && git apply patch.diff && PYTHONPATH=<worktree>/src /venv/bin/python -m pytest -q -p no:cacheprovider",
                      "PYTHONPATH=<worktree>/src /venv/bin/python demo.py  (exit != 0 with the change, 0 without)",
-                     "tools/try_seed.sh seeded/<id>-<v>/patch.diff <id>   (scratch worktree + VERIF_REPO; /repo itself is never patched)"],
+                     "tools/try_seed.sh /verif/seeded/<id>-<v>/patch.diff <id>   (scratch worktree + VERIF_REPO; /repo itself is never patched)"],
         "checks": caught,
     }
     with open(f"{dst}/meta.json", "w") as f:
